@@ -63,6 +63,10 @@ CLAIMED = {
          "Structural necessary conditions of tube isolation: both tables are keyed and selected consistently by all four accessors and by the receiver; id choice and insertion are atomic; each remotely opened tube is offered exactly once with the opener's type and reliability; one frame per unreliable message and its payload enqueued once; the two ends allocate from disjoint parity classes; decoded payloads do not alias the reused read buffer.",
          "Late frames of a closed tube reaching a successor with the same id, and interleavings in general, are history-dependent and not decided.",
          "DESIGN.md §3 C09"),
+ "C12": ("path analysis of unwrap/Open (success only through the equal edge of a full-width comparison of the Vatte-filled tag with the unsliced argument; tag width via the linear-form engine), def-use roots of the buffers handed to wrap/unwrap, read-modify-write dependence of lane stores",
+         "Three structural necessary conditions: a forged tag cannot pass through a narrow or unchecked comparison and a mismatch yields (nil, error); Seal/Open work on private copies so overlapping caller buffers are not corrupted; the byte-granular state writers preserve the rest of the lane so every key byte reaches the mask. Conformance with the Kravatte-SANSE specification for all keys and lengths is numerical and not decided.",
+         "Trusts go/ssa. Nothing is claimed about keccakF1600, rollC/rollE or Vatte/Kra arithmetic.",
+         "DESIGN.md §3 C12"),
 }
 
 NOT_APPLICABLE = {
